@@ -10,7 +10,7 @@
    byte-exact generator correspondence and judged on the reference machine. *)
 From Coq Require Import ZArith List String Bool.
 From Gigue Require Import Types Bits Isa Enc GenTables Builder BuilderTies Samplers Generator Machine MachineLemmas
-  SplitProofs FragProofs GenLemmas ImageSem CtorSpec C12Defs C12Proofs GenWF GenWFProps SliceLemmas FloatSign GenWF2 BodyExec BodyBridge GenWF5 FrameExec CodeMem SwitchExec GenWF6 GenWF4 GenWF7 GenWF8 GenWF9 Walk CallFrame MethodContract CallFrameRimi MethodContractRimi SaveRestore TrampExec TrampsInv TrampStubs WholeImage Loader Witness LoaderWitness WholeImageRimi LoaderRimi LoaderWitnessRimi.
+  SplitProofs FragProofs GenLemmas ImageSem CtorSpec C12Defs C12Proofs GenWF GenWFProps SliceLemmas FloatSign GenWF2 BodyExec BodyBridge GenWF5 FrameExec CodeMem SwitchExec GenWF6 GenWF4 GenWF7 GenWF8 GenWF9 Walk CallFrame MethodContract CallFrameRimi MethodContractRimi SaveRestore TrampExec TrampsInv TrampStubs WholeImage Loader Witness LoaderWitness WholeImageRimi LoaderRimi LoaderWitnessRimi RimiFullExec WholeImageRimiFull LoaderRimiFull LoaderWitnessRimiFull.
 Import ListNotations.
 Open Scope Z_scope.
 
@@ -277,6 +277,41 @@ Theorem C01_rimiss_image_from_files_nonvacuous :
   existsb (fun m => negb (m_is_leaf m)) (im_methods wimg_r) = true /\ 0 < SSmax wimg_r.
 Proof. split; [exact rimiss_image_from_files_nonvacuous|]. split; [exact ws0_init_r|exact wimg_shape_r]. Qed.
 
+(* PROVED: PROPERTY C01 OVER THE EMITTED FILES FOR THE RIMI FULL VARIANT
+   (LoaderRimiFull.rimifull_image_from_files; WholeImageRimiFull): the interpreter
+   runs in domain 0 on the interpreter side of the image; every interpreter call
+   enters the JIT side through a chdom into the call trampoline (domain 1) and
+   comes back through the retdom of the return trampoline; the interpreter's
+   return point and the return addresses of JIT methods live on the shadow stack
+   (FSW img = SSmax + 8 bytes, within the emitted shadow-stack image); JIT code
+   reaches the data section through duplicated accesses in domain 1 only.  From
+   ImageSem.Init the machine - whose monitors fault on a fetch in the wrong
+   domain, a duplicated access outside domain 1 / outside the data section, a
+   base access to the data section, a domain switch from the wrong domain or to
+   the wrong side - runs to the halt address WITHOUT ANY FAULT in exactly
+   fimage_steps steps, back in domain 0, t3 at its entry value. *)
+Theorem C01_rimifull_image_from_files : forall c script img,
+  successful c script img -> c_variant c = GRimiFull -> c_data_reg c <> 6 ->
+  forall L s0, Init c img (fNtot c img) L s0 -> code_lo L = int_start_al c ->
+    code_hi L - code_lo L < 2147483648 - 2048 -> pics_encodable img ->
+    FSW img <= zlen (im_ss img) ->
+    (forall r o, In (r, o) int_slots -> 0 <= rget s0 r < W64) ->
+    exists s' eh, map fst eh = im_elements img /\ Forall (fun x => fhit_ok (fst x) (snd x)) eh /\
+      run (gv c) L (fimage_steps img eh) s0 = (Next s', fimage_steps img eh) /\ pc s' = halt_at L /\
+      (forall r, 0 <= r -> wr c r = false -> ~ fclob c r -> rget s' r = rget s0 r) /\
+      rget s' 28 = ss_hi L /\
+      rmem_frame c L s0 s' (stk_hi L - fNtot c img) (stk_hi L) (ss_hi L - FSW img) (ss_hi L) /\ dom s' = 0 /\ cfi s' = [].
+Proof. exact rimifull_image_from_files. Qed.
+
+Theorem C01_rimifull_image_from_files_nonvacuous :
+  (exists s' n, run (gv wcfg_rimifull) wL_f n ws0_f = (Next s', n) /\ pc s' = halt_at wL_f /\ rget s' 28 = ss_hi wL_f /\ dom s' = 0 /\ cfi s' = []) /\
+  Init wcfg_rimifull wimg_f (fNtot wcfg_rimifull wimg_f) wL_f ws0_f /\
+  existsb (fun e => match e with EPic _ => true | _ => false end) (im_elements wimg_f) = true /\
+  existsb (fun m => negb (m_is_leaf m)) (im_methods wimg_f) = true /\ 8 < FSW wimg_f.
+Proof. split; [exact rimifull_image_from_files_nonvacuous|]. split; [exact ws0_init_f|exact wimg_shape_f]. Qed.
+
+Print Assumptions C01_rimifull_image_from_files.
+Print Assumptions C01_rimifull_image_from_files_nonvacuous.
 Print Assumptions C01_rimiss_image_from_files.
 Print Assumptions C01_rimiss_image_from_files_nonvacuous.
 Print Assumptions C01_every_rimi_method_returns_partial.
